@@ -9,10 +9,13 @@ package run
 
 import (
 	"bufio"
+	"bytes"
 	"fmt"
 	"os"
+	"os/exec"
 	"sort"
 	"strings"
+	"time"
 )
 
 // Rng is splitmix64: every random choice of a run derives from VERIF_SEED through it.
@@ -96,13 +99,50 @@ func (c *Ctx) Case(nontrivial bool, caseText string) {
 	if strings.ContainsAny(caseText, "\n\r") {
 		panic("case text must be a single line")
 	}
-	obs := c.fam.Exec(caseText)
+	var obs string
+	if strings.HasPrefix(caseText, "ASYNC ") && os.Getenv("VERIF_NO_ISOLATE") == "" {
+		// cases with library goroutines run in a child process: a panic on a worker goroutine (no recover) kills the
+		// process, and the crash must become an observation of that one case instead of the end of the whole run
+		obs = runIsolated(c.Prop, caseText)
+	} else {
+		obs = c.fam.Exec(caseText)
+	}
 	flag := "N"
 	if nontrivial {
 		flag = "T"
 	}
 	fmt.Fprintf(c.out, "case %s %s\nobs %s\n", flag, caseText, strings.ReplaceAll(obs, "\n", "\\n"))
 	c.N++
+}
+
+// runIsolated executes one case in a child process (`corr -prop P -one <case>`).
+func runIsolated(prop, caseText string) string {
+	cmd := exec.Command(os.Args[0], "-prop", prop, "-one", caseText)
+	cmd.Env = append(os.Environ(), "VERIF_NO_ISOLATE=1")
+	var out, errb bytes.Buffer
+	cmd.Stdout, cmd.Stderr = &out, &errb
+	done := make(chan error, 1)
+	if err := cmd.Start(); err != nil {
+		return "harness-panic cannot start child: " + err.Error()
+	}
+	go func() { done <- cmd.Wait() }()
+	select {
+	case err := <-done:
+		if err != nil {
+			msg := errb.String()
+			if i := strings.Index(msg, "panic:"); i >= 0 {
+				msg = msg[i:]
+			}
+			if j := strings.IndexByte(msg, '\n'); j >= 0 {
+				msg = msg[:j]
+			}
+			return "crash " + strings.TrimSpace(msg)
+		}
+		return strings.TrimRight(out.String(), "\n")
+	case <-time.After(60 * time.Second):
+		_ = cmd.Process.Kill()
+		return "hang (child killed after 60s)"
+	}
 }
 
 // Raw prints a pre-computed pair (for runners whose cases are executed in batches).
